@@ -7,10 +7,10 @@ open Fastor
 
 private def parseNats (s : String) : List Nat := (s.splitOn ",").filterMap String.toNat?
 
-def showNats (l : List Nat) : String := ",".intercalate (l.map toString)
+private def showNats (l : List Nat) : String := ",".intercalate (l.map toString)
 
 /-- run a list of stores on a buffer of `n` cells initialised with `init`; returns (buffer, out-of-range stores, WSEQ) -/
-def runStores14 (n : Nat) (init : Nat → Fp) (ws : List (Nat × Fp)) : Array Fp × Nat × UInt64 := Id.run do
+private def runStores14 (n : Nat) (init : Nat → Fp) (ws : List (Nat × Fp)) : Array Fp × Nat × UInt64 := Id.run do
   let mut mem : Array Fp := (Array.range n).map init
   let mut oob := 0
   let mut wseq : UInt64 := 0
@@ -19,7 +19,7 @@ def runStores14 (n : Nat) (init : Nat → Fp) (ws : List (Nat × Fp)) : Array Fp
     if w.1 < mem.size then mem := mem.set! w.1 w.2 else oob := oob + 1
   return (mem, oob, wseq)
 
-def digest14 (mem : Array Fp) : UInt64 := mem.foldl (fun h x => Fp.hash h x) (0 : UInt64)
+private def digest14 (mem : Array Fp) : UInt64 := mem.foldl (fun h x => Fp.hash h x) (0 : UInt64)
 
 def runPermute (kv : List (String × String)) : String := Id.run do
   let some std := getN kv "std" | return "bad-op"
@@ -61,6 +61,11 @@ def runPmeta (kv : List (String × String)) : String := Id.run do
     return base ++ s!" REV={showNats (Permute.mappedIndex p)}"
   return base
 
+def runPmeta2 (kv : List (String × String)) : String := Id.run do
+  let some rs := getS kv "R" | return "bad-op"
+  let some os := getS kv "O" | return "bad-op"
+  return s!"REV={showNats (Permute.mappedIndex2 (parseNats rs) (parseNats os))}"
+
 def runTranspose (kv : List (String × String)) : String := Id.run do
   let some cfgName := getS kv "cfg" | return "bad-op"
   let some cfg := Cfg.ofName cfgName | return "bad-op"
@@ -71,13 +76,21 @@ def runTranspose (kv : List (String × String)) : String := Id.run do
   let nC := (getN kv "nc").getD 1
   let ex := (getN kv "ex").getD 0
   let a : Nat → Fp := fun k => if ex == 0 then Fp.ofTok 1 k else Fp.ofTok 1 k + Fp.ofTok 2 k
-  let ws := Transpose.transposeWrites cfg sz nR nC a (fun _ _ _ => 0) (fun _ _ _ => 0) M N
+  let staged := (getS kv "api") == some "mapassign"
+  let ws := if staged then Transpose.mapAssignWrites cfg sz nR nC a (fun _ _ _ => 0) (fun _ _ _ => 0) (fun _ => 0) M N
+            else Transpose.transposeWrites cfg sz nR nC a (fun _ _ _ => 0) (fun _ _ _ => 0) M N
   let rd := Transpose.transposeReads cfg sz nR nC M N
   let (mem, oob, wseq) := runStores14 (M * N) (fun p => Fp.ofTok 0 p) ws
   let roob := (rd.filter (fun r => r ≥ M * N)).length
   let (rn, V) := match Transpose.route cfg with
     | .plain => ("plain", 1)
     | .blocked => ("blocked", cfg.native.lanes sz)
+  let rn := if staged then rn ++ "+copy" else rn
+  -- the public entry points go through the generic assignment machinery (owned by other properties): for them only the
+  -- placement, the number of stores, the read set and the width are compared, not the order of stores and loads
+  let viaApi := match getS kv "api" with | some "raw" => false | none => false | _ => true
+  if viaApi then
+    return s!"route={rn} V={V} VAL={hex (digest14 mem)} NW={ws.length} RDA={hex (hashNats 0 (sortDedup rd))} MOOB={oob + roob}"
   return s!"route={rn} V={V} VAL={hex (digest14 mem)} WSEQ={hex wseq} NW={ws.length} RDA={hex (hashNats 0 (sortDedup rd))} RSEQ={hex (hashNats 0 rd)} MOOB={oob + roob}"
 
 end Fastor.Driver
